@@ -68,7 +68,7 @@ def collect_sites(orig_ir, repo_prefix="glass-easel-template-compiler/src/", fil
             pm = sir.parent_map(fn)
             for n in sir.walk(fn["body"], into_items=True):
                 if n.get("k") == "mac" and n["name"] in FMT_MACROS:
-                    fa = sir.format_args_of(n)
+                    fa = sir.format_args_of(n, resolve_consts=False)   # holes stay holes here: they are matched with the MIR argument types
                     if not fa:
                         continue
                     # not generated code: error messages, and text that is escaped as a whole afterwards
